@@ -92,9 +92,9 @@ CHECKS["C10"] = {
     "engine": "explorer",
     "text": "Explicit-state breadth-first search over store states: from the empty store, every call of a ~190-call alphabet (the nine actions x valid / each kind of invalid argument, requests without parameters, bodies that are truncated / empty / not UTF-8 for every action, the immediate refusals of StartSyncExecution) is issued in "
             "every reachable state to the real Quart and Flask front ends backed by the real engine (snapshot/restore of the stores; StartExecution is run to quiescence); status, __type and body compared with a "
-            "two-map reference, stores compared before/after each error answer and with the reference after each success. Quick: first 160 distinct states per front end; thorough: to the fixed point. Plus 12 pairs of overlapping "
+            "two-map reference, stores compared before/after each error answer and with the reference after each success. Quick: first 160 distinct store states per front end in breadth-first order; thorough: the first 1500 (the search reaches its fixed point within that for the validating configuration; with unnamed executions in the alphabet the plain searches are reported as capped). Plus 12 pairs of overlapping "
             "requests on the asyncio front end, the two handlers stepped one ready event-loop callback at a time through every interleaving within a deviation bound (1 quick / 2 thorough) of the loop's own order: answers and stores must "
-            "equal one of the two sequential orders. The alphabet includes StartExecution without a name (generated names are anonymised in the canonical state, at most two per state) and arrays / objects where string arguments are expected. "
+            "equal one of the two sequential orders. The alphabet includes StartExecution without a name (generated names are anonymised in the canonical state, at most two per state in the quick tier, one in the search to the fixed point) and arrays / objects where string arguments are expected. "
             "A second, smaller search runs the asyncio front end configured with validate_asl: definitions the bundled validator refuses or that repeat a member name are refused there (store unchanged) and stored as given otherwise.",
     "note": "Trusted base: the reference map in checks/c10.py, Quart/Flask test clients in place of HTTP, simulated broker for StartExecution. " + SIM,
     "technique": "explicit-state model checking (BFS over reachable store states with a reference-model oracle)",
